@@ -216,7 +216,9 @@ func runC08(p *engine.Prog, r *engine.Report) {
 						}
 						if fa2, ok := u.X.(*ssa.FieldAddr); ok && engine.FieldOf(fa2) == fCfgHash {
 							ct := fi.T(u).S
-							if ok, _ := fi.Implies(st.Block(), engine.EqAtom(ct, rtHash)); ok {
+							if fi.ImpliesVersioned(st, func(at ssa.Instruction) *engine.Formula {
+								return engine.EqAtom(ct, fi.FieldPath(fi.T(base).S, at, c.fRuntime, c.fCfgHash))
+							}) {
 								// the ConfigInfo must come from the injected getConfig
 								if cv, ok := fi.Calls[fi.T(fa2.X).S]; ok {
 									if call, ok := cv.(*ssa.Call); ok {
